@@ -4,7 +4,7 @@
    (name, attributes) and the operand values; integer and float operations are covered uniformly. *)
 From Snax Require Import Base.Prelude Model.C20Phs Model.C20Order Proofs.C20PhsProofs Proofs.C20DecodeProofs
   Proofs.C20SearchProofs Proofs.C20AppendProofs Proofs.C20HistoryProofs Proofs.C20WfProofs
-  Proofs.C20HistoryFullProofs Proofs.C20EncodeProofs Proofs.C20EncodeSemProofs Proofs.C20EndToEndProofs Proofs.C20TotalProofs.
+  Proofs.C20HistoryFullProofs Proofs.C20EncodeProofs Proofs.C20EncodeSemProofs Proofs.C20EndToEndProofs Proofs.C20TotalProofs Proofs.C20EncodeTotalProofs Proofs.C20CostProofs.
 
 (* valid_mapping_sem: if valid_mapping accepts the mux assignment mu for the kernel graph g against the
    abstract graph G, then G — with its mux switches set as mu says and its choose switches selecting g's
@@ -146,6 +146,54 @@ Theorem C20_history_correct_total :
 Proof. exact history_correct_total. Qed.
 Print Assumptions C20_history_correct_total.
 
+(* convert_generic_body_to_phs never raises on an SSA body, and its result is a kernel graph in the sense of
+   merge_succeeds / history_correct_total *)
+Theorem C20_encode_succeeds : forall b, body_ok b = true -> exists g, encode b = Some g.
+Proof. exact encode_succeeds. Qed.
+Print Assumptions C20_encode_succeeds.
+
+Theorem C20_encode_total_ok :
+  forall b g, body_total_ok b = true -> encode b = Some g -> kernel_total_ok g = true.
+Proof. exact encode_total_ok. Qed.
+Print Assumptions C20_encode_total_ok.
+
+(* THE PROPERTY, hypothesis-light: for every non-empty list of SSA kernel bodies (body_total_ok: operands are
+   block arguments or earlier results, a yielded value, one type per operand in the signature — decidable,
+   evaluated by L1 on every generated real body) that use the same number d of block arguments, in any order and
+   of any length: encoding and merging succeed, every body's graph decodes against the merged PE, the number of
+   switch values equals get_true_switches, and under them the merged PE yields on every data input exactly
+   the value the body yields. *)
+Theorem C20_bodies_history_correct_total :
+  forall opsem b0 brest d,
+    (forall b, In b (b0 :: brest) -> body_total_ok b = true /\
+               length (filter (arg_used b) (seq 0 (bnargs b))) = d) ->
+    exists gs G, Forall2 (fun b g => encode b = Some g) (b0 :: brest) gs /\ merge_all gs = Some G /\
+      forall b g, In (b, g) (combine (b0 :: brest) gs) ->
+        exists sw, decode G g = Some sw /\ true_switches G = Some (length sw) /\
+          forall ins v, (bnargs b <= length ins)%nat -> eval_body opsem b ins = Some v ->
+                        eval_pe opsem G sw (used_inputs b ins) = Some v.
+Proof. exact bodies_history_correct_total. Qed.
+Print Assumptions C20_bodies_history_correct_total.
+
+(* The work of search_mapping (it validates complete assignments only): at most 2^muxes leaves, exactly 2^muxes
+   when no valid assignment exists, and 2^muxes even for a decodable kernel whose assignment is the last leaf.
+   This is the complexity hazard mutation seed C20-m1 exposed; the code is left as it is (see meta). *)
+Theorem C20_search_cost_upper :
+  forall g G ms mu, (search_cost g G ms mu <= 2 ^ length ms)%nat.
+Proof. exact search_cost_upper. Qed.
+Print Assumptions C20_search_cost_upper.
+
+Theorem C20_search_cost_unsat :
+  forall g G ms mu, search g G ms mu = Some None -> search_cost g G ms mu = (2 ^ length ms)%nat.
+Proof. exact search_cost_unsat. Qed.
+Print Assumptions C20_search_cost_unsat.
+
+Example C20_search_cost_worst_decodable :
+  pe_wf cost_G = true /\ decode cost_G cost_g = Some [1; 1; 1; 1; 1; 1] /\
+  search_cost cost_g cost_G (all_muxes cost_G) (fun _ => 0) = (2 ^ length (all_muxes cost_G))%nat.
+Proof. exact search_cost_worst_decodable. Qed.
+Print Assumptions C20_search_cost_worst_decodable.
+
 (* non-vacuity: two kernels with different routing and operations; the merged PE has a mux and a
    two-alternative choose op, decode succeeds with a non-trivial switch list and every hypothesis holds *)
 Definition ex_f32 : sig := ([132;132],[132]).
@@ -211,9 +259,10 @@ Print Assumptions C20_block_order_refuted.
 
 (* non-vacuity of the body-level statement: the three example bodies satisfy its hypotheses and evaluate *)
 Example C20_bodies_nonvacuous :
-  forallb body_ok [ex_b1; ex_b2; ex_b3] = true /\
+  forallb body_total_ok [ex_b1; ex_b2; ex_b3] = true /\
+  map (fun b => length (filter (arg_used b) (seq 0 (bnargs b)))) [ex_b1; ex_b2; ex_b3] = [2; 2; 2]%nat /\
   (forall opsem, eval_body opsem ex_b3 [5; 7; 0] =
                  Some [opsem (mkOp 22 0) [opsem (mkOp 20 0) [opsem (mkOp 21 0) [5; 5]; 7]; opsem (mkOp 21 0) [5; 5]]]) /\
   used_inputs ex_b3 [5; 7; 0] = [5; 7].
-Proof. split; [vm_compute; reflexivity|]. split; [intros opsem; vm_compute; reflexivity|vm_compute; reflexivity]. Qed.
+Proof. split; [vm_compute; reflexivity|]. split; [vm_compute; reflexivity|]. split; [intros opsem; vm_compute; reflexivity|vm_compute; reflexivity]. Qed.
 Print Assumptions C20_bodies_nonvacuous.
